@@ -15,7 +15,7 @@ from vlib.harness import REPO, PropertyViolation, run_property
 PROPERTY_ID = "C16"
 LEVEL = "exploration"
 RULE = (
-    "Hypothesis generates Sampler recipes: sample slot subsets of the 128 slots (edge-biased 0,1,2,63,126,127), arbitrary data bytes (incl. "
+    "Hypothesis generates Sampler recipes: sample slot subsets of the 128 slots (edge-biased 0,1,2,63,126,127; one Sample object may sit in several slots), arbitrary data bytes (incl. "
     "lengths that are not a multiple of the frame size), 3 formats x 2 channel layouts, every Sample field over its struct width, all 7 "
     "envelopes with 0..64 points (+ boundary probes 12/13/255/256/300 points and indices 255/256/65535), flags, 119-entry note maps, vibrato / "
     "fadeout, editor fields, version fields, embedded effect, common fields/controllers/options; both contexts and clone(). Legacy variants: "
